@@ -27,7 +27,7 @@ CHECKS = {
                 "enumerated): S(k), P(k) and the step count n(k) = sum |P(i)-P(i-1)| are linear terms; under 'n(K) >= budget > n(K-1) and "
                 "all |rate_k| <= 2^31-1' z3 proves duration = K, position = P(K), accumulator = S(K) mod 2^31 in [0,2^31); impossible "
                 "requests give (0,0,0); moveTimeLM delegates.",
-        "note": "K <= 6 (quick) / 16 (thorough), legacy form K <= 4 / 8; mp rounding of sqrt and of the root quotient at 103 bits is a "
+        "note": "K <= 6 (quick) / 9 (thorough), legacy form K <= 4 / 6; mp rounding of sqrt and of the root quotient at 103 bits is a "
                 "paper argument (exact-root model); the closed form S(k) is the recurrence by C01",
         "technique": "symbolic execution of the Python source on z3 integer terms (square roots eliminated by squaring, lazy ceilings) + SMT (non-linear integer arithmetic) obligations per path, counterexample replay against a tick-by-tick simulation",
     },
